@@ -567,7 +567,7 @@ def batches(ctx):
         yield "exhaustive-nested-3", nested(NESTED[:2], 3, full=False)
     else:
         yield "exhaustive-nested-3", nested(NESTED, 3)
-        yield "exhaustive-nested-4", nested(NESTED[:2], 4, full=False)
+        yield "exhaustive-nested-4", nested(NESTED[:1], 4, full=False)
     # values of another type that python considers equal to a member, offered to every mutator of every kind
     ct_decls = [d for b in (0, 2, 3, 4, 1, 5, "s5", "s9")
                 for d in array_decls([(1, 2)], b) + list_decls([(0, None), (0, 2)], b) + coll_decls([(0, None), (0, 1), (0, 2)], b)]
